@@ -6,7 +6,8 @@ PROP = 'C18'
 LEVEL = 'exploration'
 SHARD_TIMEOUT = {'quick': 400, 'thorough': 3000}
 RULE = ('Each configuration is run (a) twice in one process with fresh objects, (b) on a data source / memoised price '
-        'lookups that already served another session and a storm of 300 shuffled queries, (c) in fresh interpreters '
+        'lookups that already served another session and a storm of 300 shuffled queries, (d) with fresh objects after an '
+        'unrelated session on a different market with the same tickers and dates ran in the same process, (c) in fresh interpreters '
         'started with other PYTHONHASHSEED values (quick {1,2,3} against this process\'s 0; thorough {1..11, random}); '
         'a sha256 over float.hex renderings of the delivered fills (order ids removed), the equity samples and the '
         'allocation rows must be equal. Configurations are chosen to expose iteration order: 5-8 assets with unrelated '
